@@ -21,7 +21,9 @@ var c03Mins = []string{"off", "-5", "0", "5", "1000"}
 
 type c03Split struct{ name string } // how the spendable balance b is split into deposit / credit
 
-var c03Splits = []string{"credit", "deposit", "mixed", "trial"}
+// "shared": the client and its first host are linked to the same wallet, so what the client pays
+// that host comes straight back to the account it spends from
+var c03Splits = []string{"credit", "deposit", "mixed", "trial", "shared"}
 
 // c03Setup builds a world where client C has spendable balance b, realised by the split.
 // Hosts H1,H2 connected and tracked as active peers of C; H3 is an active peer without a live
@@ -56,6 +58,12 @@ func c03Setup(driver, min, split string, b int64, nHosts int) (*vh.PoolWorld, []
 		pw.Store.AddNodeBalance(store.NodeID(C.NodeID), big.NewInt(b))
 	case "credit":
 		pw.Store.AddAccountNode(store.Account(W.Wallet), store.NodeID(C.NodeID))
+		pw.Store.AddAccountBalance(store.Account(W.Wallet), big.NewInt(b))
+	case "shared":
+		pw.Store.AddAccountNode(store.Account(W.Wallet), store.NodeID(C.NodeID))
+		if nHosts > 0 {
+			pw.Store.AddAccountNode(store.Account(W.Wallet), store.NodeID(H1.NodeID))
+		}
 		pw.Store.AddAccountBalance(store.Account(W.Wallet), big.NewInt(b))
 	case "deposit":
 		pw.Store.AddAccountNode(store.Account(W.Wallet), store.NodeID(C.NodeID))
@@ -169,9 +177,13 @@ func c03Update(driver string) vh.Unit {
 								if min != "off" {
 									m = big10(min).Int64()
 								}
-								charge := elapsed * int64(nHosts)
+								gross := elapsed * int64(nHosts)
+								charge := gross // what leaves the account the client spends from
+								if split == "shared" && nHosts > 0 {
+									charge -= elapsed // the first host's share returns to the same wallet
+								}
 								if asHost {
-									charge = 0 // full nodes are never billed
+									gross, charge = 0, 0 // full nodes are never billed
 								}
 								after := m + off
 								b := after + charge
@@ -214,9 +226,9 @@ func c03Update(driver string) vh.Unit {
 								u.R.Transitions++
 								u.R.Traces++
 								lb, isLow := err.(balance.LowBalanceError)
-								bills := !asHost && charge > 0
+								bills := !asHost && gross > 0
 								want := bills && min != "off" && after < m
-								desc := fmt.Sprintf("min=%s split=%s balance-before=%d charge=%d (elapsed=%dns x %d peers) host=%v", min, split, b, charge, elapsed, nHosts, asHost)
+								desc := fmt.Sprintf("min=%s split=%s balance-before=%d net charge=%d (elapsed=%dns x %d peers) host=%v", min, split, b, charge, elapsed, nHosts, asHost)
 								u.Observe(fmt.Sprintf("%s %d %v %d %v %v", min, off, bills, nHosts, asHost, isLow))
 								if len(u.R.Samples) < 3 && want {
 									u.Sample(desc + " -> cut off")
@@ -270,6 +282,67 @@ func c03Update(driver string) vh.Unit {
 				}
 			}
 		}
+	}}
+}
+
+// two clients spending from one wallet send their keep-alives at the same time: whoever is charged
+// last takes the account below the minimum and must be cut off.
+func c03SharedRace(driver string, bound int) vh.Unit {
+	name := "shared-wallet-race/" + driver
+	ids := vh.Identities()
+	C1, H1, H2, W, C2 := ids[0], ids[1], ids[2], ids[4], ids[5]
+	var pw *vh.PoolWorld
+	res := make([]error, 2)
+	body := func() {
+		vsched.ResetClock(0)
+		pw = vh.NewPoolWorld(vh.PoolConfig{Driver: driver, Price: big.NewInt(1), Interval: 1, MinBalance: big.NewInt(500)})
+		for _, h := range []*vh.Ident{H1, H2} {
+			pw.Connect(h, vh.ConnectOpts{Host: true})
+		}
+		for _, c := range []*vh.Ident{C1, C2} {
+			pw.Store.SetNode(store.Node{ID: store.NodeID(c.NodeID), Kind: "geth", LastSeen: vsched.Now()})
+			pw.Store.AddAccountNode(store.Account(W.Wallet), store.NodeID(c.NodeID))
+		}
+		pw.Store.AddAccountBalance(store.Account(W.Wallet), big.NewInt(515))
+		pw.Update(C1, []string{H1.NodeID}, 1)
+		pw.Update(C2, []string{H2.NodeID}, 1)
+		vsched.Advance(10) // each keep-alive now costs 10: 515 -> 505 -> 495
+		pw.Update(H1, nil, 2)
+		pw.Update(H2, nil, 2)
+		vh.Par([]string{"c1", "c2"},
+			func() { _, res[0] = pw.Update(C1, []string{H1.NodeID}, 2) },
+			func() { _, res[1] = pw.Update(C2, []string{H2.NodeID}, 2) })
+	}
+	return vh.Unit{Name: name, Run: func(u *vh.U) {
+		vh.RunDFS(u, vh.DFSSpec{
+			Name: name, Bound: bound,
+			Run:  vsched.Options{YieldFiles: []string{"perinterval.go", "memory.go", "badger.go", "helpers.go"}},
+			Body: body,
+			Obs:  func(s *vsched.Sched) string { return fmt.Sprint(errs(res), spendable(pw, C1.NodeID)) },
+			Check: func(s *vsched.Sched) (string, string) {
+				final := spendable(pw, C1.NodeID)
+				cut := 0
+				for i, e := range res {
+					lb, low := e.(balance.LowBalanceError)
+					if e != nil && !low {
+						return "shared-wallet-race/unexpected-error", fmt.Sprintf("keep-alive %d: %v", i, e)
+					}
+					if low {
+						cut++
+						if lb.CurrentBalance == nil || lb.CurrentBalance.Cmp(big.NewInt(500)) >= 0 {
+							return "shared-wallet-race/cut-off-at-or-above-minimum", fmt.Sprintf("keep-alive %d cut off reporting balance %v (minimum 500)", i, lb.CurrentBalance)
+						}
+					}
+				}
+				if final == nil || final.Cmp(big.NewInt(495)) != 0 {
+					return "shared-wallet-race/charge-not-applied", fmt.Sprintf("two keep-alives of 10 each from a wallet of 515: balance afterwards %v (results %v)", final, res)
+				}
+				if cut == 0 {
+					return "shared-wallet-race/not-cut-off-below-minimum", fmt.Sprintf("two clients sharing a wallet of 515 (minimum 500) were charged 10 each at the same time: the wallet is at %v and neither client was cut off", final)
+				}
+				return "", ""
+			},
+		})
 	}}
 }
 
@@ -379,6 +452,14 @@ func init() {
 					depth--
 				}
 				us = append(us, c03Walk(d, depth))
+				bound := 2
+				if d == vh.Badger {
+					bound = 1
+				}
+				if tier == "thorough" {
+					bound += 2
+				}
+				us = append(us, c03SharedRace(d, bound))
 			}
 			return us
 		},
